@@ -29,6 +29,7 @@ static long steps = 0, max_steps = 4000000, nviol = 0, spurious = 0, switches = 
 static prng_t G;       // scheduler choices
 static prng_t GP;      // program choices
 static int mode = 0;   // 0 tfree, 1 exit, 2 heap
+static int many_segments = 0;   // VERIF_TARGET_SEGMENTS: threads own more segments than the target, so segments are force-abandoned
 static int big_arena = 0;   // VERIF_BIG_ARENA: a 4 GiB arena (128 blocks, two bitmap fields) and huge farewell blocks
 static int lockfmt = 0; // mode `lock`: tfree program, log in the lockstep format of ocaml/mode_tfree.ml
 static int nops = 200;
@@ -225,6 +226,7 @@ static void do_alloc(int s) {
     return;
   }
   size_t size = (prng_below(&GP, 10) < 7) ? FOCUS[prng_below(&GP, 6)] : SIZES[prng_below(&GP, sizeof(SIZES) / sizeof(SIZES[0]))];
+  if (many_segments && prng_below(&GP, 10) < 4) size = ((size_t)5 << 20) + prng_below(&GP, (size_t)4 << 20);   // large pages: a thread soon owns several segments
   if (lockfmt && size < 4000) size = 40000;          // few blocks per page: the replayed states stay small
   uint64_t seed = prng_next(&GP);
   int useheap = (mode == 2 && extra_heap[cur] != NULL && prng_below(&GP, 3) != 0);
@@ -361,6 +363,7 @@ int main(int argc, char** argv) {
   signal(SIGSEGV, on_segv); signal(SIGBUS, on_segv); signal(SIGABRT, on_segv);
   if (getenv("VERIF_RECLAIM_ON_FREE")) mi_option_set(mi_option_abandoned_reclaim_on_free, atoi(getenv("VERIF_RECLAIM_ON_FREE")));
   if (getenv("VERIF_NO_ARENA")) mi_option_set(mi_option_disallow_arena_alloc, 1);
+  if (getenv("VERIF_TARGET_SEGMENTS")) many_segments = 1;
   if (getenv("VERIF_TARGET_SEGMENTS")) mi_option_set(mi_option_target_segments_per_thread, atoi(getenv("VERIF_TARGET_SEGMENTS")));
   if (getenv("VERIF_BIG_ARENA")) { big_arena = 1; mi_arena_id_t aid; if (mi_reserve_os_memory_ex((size_t)4 << 30, false, false, false, &aid) != 0) { printf("V fail could not reserve the big arena\nEND steps=0 viol=1\n"); return 0; } }
   if (mode == 1) mi_option_set(mi_option_visit_abandoned, 1);   // must be enabled from the start
@@ -379,6 +382,23 @@ int main(int argc, char** argv) {
   for (;;) { int live = 0; for (int i = 1; i < nthreads; i++) live += vts[i].alive; if (!live) break; verif_pre(VOP_YIELD, NULL); }
   sched_on = 0;
   if (mode == 1) check_abandoned_visit();
+  if (mode == 1) {
+    // C09: "once the last block in it has been freed the memory is released instead of leaked": keep the blocks of one
+    // terminated thread live, free everything else, run NON-forced collects; no abandoned segment without a live block may remain
+    int keeper = -1; for (int j = 0; j < NSLOTX && keeper < 0; j++) if (slots[j].p != NULL && slots[j].owner != 0) keeper = slots[j].owner;
+    for (int j = 0; j < NSLOTX; j++) if (slots[j].p != NULL && slots[j].owner != keeper) { check_block(j, "at quiescence"); uint8_t* q = slots[j].p; slots[j].p = NULL; mi_free(q); }
+    for (int k = 0; k < 3; k++) mi_collect(false);
+    size_t dead = 0;
+    for (size_t j = 0; j < mi_arena_get_count(); j++) {
+      mi_arena_t* a = mi_arena_from_index(j); if (a == NULL || a->blocks_abandoned == NULL) continue;
+      for (size_t b = 0; b < a->block_count; b++) if (mi_atomic_load_relaxed(&a->blocks_abandoned[b / 64]) & ((size_t)1 << (b % 64))) {
+        uint8_t* sg = a->start + b * MI_ARENA_BLOCK_SIZE; size_t ssz = mi_segment_size((mi_segment_t*)sg);
+        int live = 0; for (int q = 0; q < NSLOTX; q++) if (slots[q].p != NULL && slots[q].p >= sg && slots[q].p < sg + ssz) live = 1;
+        if (!live) dead++;
+      }
+    }
+    if (dead != 0) viol("abandoned-leak", "%zu abandoned segments without any live block were not released by three non-forced collects (blocks of t%d kept live)", dead, keeper);
+  }
   // quiescence: free what is left, collect, and look at what the allocator still holds
   for (int j = 0; j < NSLOTX; j++) if (slots[j].p != NULL) { check_block(j, "at quiescence"); uint8_t* p = slots[j].p; slots[j].p = NULL; mi_free(p); }
   if (getenv("VERIF_DEBUG_LEAK")) {
